@@ -154,8 +154,8 @@ def lemmas(pmax=3):
             check("L-herm %s p=%d" % (nm, p), "%s projector is Hermitian (real and symmetric), all d" % nm, (lambda P=P: (P(), P().T)), ax)
             check("L-idem %s p=%d" % (nm, p), "%s projector is idempotent: P @ P == P, all d" % nm, (lambda P=P: (BL.matmul(P(), P()), P())), ax)
             for tau in itertools.permutations(range(p)):
-                if tau == tuple(range(p)) or (p == 3 and tau not in ((1, 0, 2), (1, 2, 0))):
-                    continue  # a transposition and a cycle generate S_3; for p = 2 the swap
+                if tau == tuple(range(p)) or (p >= 3 and tau not in ((1, 0) + tuple(range(2, p)), tuple(range(1, p)) + (0,))):
+                    continue  # a transposition and the full cycle generate S_p; for p = 2 the swap
                 sg = sign_of(tau) if anti else 1
                 check("L-perm %s p=%d tau=%s" % (nm, p, list(tau)), "W_tau @ P == %sP for the subsystem permutation tau, all d" % ("sgn(tau) " if anti else ""), (lambda P=P, tau=tau, sg=sg, p=p: (BL.matmul(spec_permop(d, p, tau), P()), BL.scale(sg, P()))), ax)
             rank = sp.expand_func(sp.binomial(d, p)) if anti else sp.expand_func(sp.binomial(d + p - 1, p))
